@@ -19,7 +19,7 @@ RULE = ('random programs over 1-3 simultaneously open PyCdlibIO streams ({read(n
 ASSUMPTIONS = ['io.BytesIO is the reference stream; a seek to a negative position may either raise or clamp (both are stream-like)']
 REQUIRED_COUNTERS = {'stream_ops_compared': 500, 'extractions_compared': 50}
 
-SIZES = [0, 1, 2, 100, 2047, 2048, 2049, 4095, 4096, 4097, 5000, 6143, 6144, 6145]
+SIZES = [0, 1, 2, 9, 40, 63, 64, 100, 2047, 2048, 2049, 4095, 4096, 4097, 5000, 6143, 6144, 6145]
 BLOCKS = [1, 7, 512, 2047, 2048, 2049, 8192, 100000]
 
 
@@ -151,7 +151,7 @@ def run_program(seed, mode, counters, program=None, record=None):
     if mode == 'pending' and seed % 5 == 0:
         # a pending boot file with a boot info table: what a stream returns must be what an
         # extraction returns (the file "as read back" carries the table)
-        cands = [(n_, k_) for n_, (k_, c_) in sorted(files.items()) if len(c_) >= 65 and 'iso_path' in k_]
+        cands = [(n_, k_) for n_, (k_, c_) in sorted(files.items()) if len(c_) >= (65 if seed % 10 else 9) and 'iso_path' in k_]
         if cands:
             n_, k_ = cands[0]
             out = s.step({'op': 'add_eltorito', 'bootfile_path': k_['iso_path'], 'boot_info_table': True})
@@ -162,6 +162,13 @@ def run_program(seed, mode, counters, program=None, record=None):
                     s.iso.get_file_from_iso_fp(ex, iso_path=k_['iso_path'])
                     with s.iso.open_file_from_iso(iso_path=k_['iso_path']) as f_:
                         st = f_.read()
+                    # the extraction is the same under every name of the file, and as long as the file
+                    for kk_, pp_ in sorted(k_.items()):
+                        ex2 = io.BytesIO()
+                        s.iso.get_file_from_iso_fp(ex2, **{kk_: pp_})
+                        counters['bit_extractions_compared'] = counters.get('bit_extractions_compared', 0) + 1
+                        if ex2.getvalue() != ex.getvalue() or len(ex2.getvalue()) != len(files[n_][1]):
+                            vio.append({'key': 'extract:boot-info-table:names-disagree', 'detail': '%s=%s gives %d bytes, iso_path gives %d, the file has %d' % (kk_, pp_, len(ex2.getvalue()), len(ex.getvalue()), len(files[n_][1]))})
                     if st != ex.getvalue():
                         vio.append({'key': 'stream:boot-info-table:differs-from-extraction', 'detail': '%s: open_file_from_iso().read() and get_file_from_iso_fp() disagree in bytes %s' % (k_['iso_path'], [i_ for i_ in range(min(len(st), len(ex.getvalue()))) if st[i_] != ex.getvalue()[i_]][:3])})
                 except Exception as e_:
